@@ -219,6 +219,9 @@ class UnitSystem:
                 continue
             if unit.is_Mul:
                 unit = unit.as_coeff_Mul()[1]
+            if not unit.is_Symbol:
+                # a product, quotient or power of units is not a base unit
+                raise IllDefinedUnitSystem(self.units_map)
             if (
                 self.registry is not None
                 and self.registry[str(unit)][1] is not dimension
